@@ -355,7 +355,7 @@ def random_op(p, rng, history=()):
     if r < 0.89:
         return {"op": "print", "k": rng.randint(0, 20)}
     if r < 0.93:
-        return {"op": "csv", "rows": rng.choice(CSV_ROWS)}
+        return {"op": "csv", "rows": rng.choice(CSV_ROWS)} if rng.random() < 0.6 else {"op": "helpers"}
     cols, rows = p.csv_plain()
     return {"op": "csv_schema", "cols": cols, "rows": rows}
 
@@ -430,6 +430,17 @@ def directed(p):
         out.append({"history": [nav(1)], "probe": rd(4)})
         out.append({"history": [nav(5, keep=True), nav(0), nav(2, keep=True)], "probe": rd(1)})
         out.append({"history": [nav(2), nav(2)], "probe": rd(3, "new")})
+    # wide numeric items (more digits than the default decimal precision) read before and after unrelated work: a 31-digit packed
+    # field, a 30-digit zoned field whose low digits are not zero, the conversion helpers on floats in between
+    WIDE = ("       01  W-REC.\n           05  W-P PIC S9(31) COMP-3.\n           05  W-Z PIC 9(20)V9(10).\n"
+            "           05  W-Q PIC S9(17)V99 COMP-3.\n")
+    wrec = ([0x12, 0x34, 0x56, 0x78, 0x90] * 3 + [0x1D]) + [0xF0 + (i * 7 + 3) % 10 for i in range(30)] + [0x98, 0x76, 0x54, 0x32, 0x10, 0x98, 0x76, 0x54, 0x32, 0x1C]
+    wnav = lambda paths: {"op": "nav", "text": WIDE, "record": wrec, "paths": paths, "keep": False, "dump": False}
+    wrd = lambda paths: {"probe": "read", "text": WIDE, "record": wrec, "paths": paths, "use_kept": False}
+    out.append({"history": [wnav([[[0, "W-P"]]])], "probe": wrd([[[0, "W-Z"]], [[0, "W-Q"]]])})
+    out.append({"history": [wnav([[[0, "W-Z"]]]), {"op": "helpers"}], "probe": wrd([[[0, "W-P"]], [[0, "W-Z"]], [[0, "W-Q"]]])})
+    out.append({"history": [{"op": "helpers"}], "probe": wrd([[[0, "W-Z"]], [[0, "W-Q"]], [[0, "W-P"]]])})
+    out.append({"history": [{"op": "helpers"}, wnav([[[0, "W-P"]], [[0, "W-Q"]]]), {"op": "helpers"}], "probe": wrd([[[0, "W-Z"]]])})
     # CSV files without heading row read through hand-written schemas WITHOUT position keywords that are composed
     # from shared column sub-documents in different orders
     cs = lambda cols: {"op": "csv_schema", "cols": cols, "rows": [[f"{c}-{i}" for c in cols] for i in range(2)]}
